@@ -68,7 +68,8 @@ def check_C01(run, replay):
                 "same cases and on U-tiny for NoBadRead / NoUnderflow / ResolvedLeavesFirst / AllReachedResolved / "
                 "MatchesDeclarative (and refuted without the action in the recall rule, MC_EvalOpTiny_NoAction.cfg); histories: "
                 "MC_History.tla - the profile as a stateful object, every sequence of {evaluate, truncate at 1/4, 1/2, 3/5, clone, "
-                "re-import} of length 3 (4 thorough) that observes after a mutation, replayed on ONE real object")
+                "re-import} of length 3 (4 thorough) that observes after a mutation, replayed on ONE real object; and of {evaluate, "
+                "truncate at 1/4, 3/5, snapshot, swap, distance(object, snapshot, 1)} on a PAIR of objects")
     run.assumptions = ["f64 evaluation of a depth<=5 game is within 1e-11 of the exact rational value",
                        "TLC evaluates the TLA+ operators of Rat.tla / Game.tla correctly"]
     if replay:
@@ -93,8 +94,12 @@ def check_C01(run, replay):
     write_ndjson(hist_path, cases[:10 if run.tier == "quick" else 60])
     res = tlc("MC_History", env={"CASES": hist_path, "DEPTH": 3 if run.tier == "quick" else 4}, timeout=6000)
     run.add_tlc(res)
-    hexp = run.path("hist.exp.ndjson")
     hrecs = res.out("OUT")
+    # ... and two objects (object + snapshot): snap / swap / distance between them
+    res = tlc("MC_History", env={"CASES": hist_path, "DEPTH": 3 if run.tier == "quick" else 4, "OPSET": "pair"}, timeout=6000)
+    run.add_tlc(res)
+    hrecs = hrecs + res.out("OUT")
+    hexp = run.path("hist.exp.ndjson")
     write_ndjson(hexp, [{"id": n, "exp": v} for n, (_, v) in enumerate(hrecs)])
     hout = run.path("hist.res.ndjson")
     harness(["replay", "history", "--cases", hist_path, "--exp", hexp, "--out", hout])
